@@ -76,3 +76,37 @@ Print Assumptions C06_gaussian_split_never_increases.
 Print Assumptions C06_variance_floor.
 Print Assumptions C06_adapter_checker_sound.
 Print Assumptions C06_twin_checker_sound.
+
+(** ---- added: statements re-derived from the lemma files by tools/append_props.py ---- *)
+Theorem C06_l2_saving_subadditive : forall (S1 : nat -> R) (s k e : nat), (s < k)%nat -> (k < e)%nat -> (l2_saving_R S1 s e <= l2_saving_R S1 s k + l2_saving_R S1 k e)%R.
+Proof. exact @l2_saving_subadditive. Qed.
+
+Theorem C06_l2_saving_split_gap_is_l2_change_score : forall (S1 S2 : nat -> R) (s k e : nat), (s < k)%nat -> (k < e)%nat -> (l2_saving_R S1 s k + l2_saving_R S1 k e - l2_saving_R S1 s e)%R = change_score (l2_cost_optim_R S1 S2) s k e.
+Proof. exact @l2_saving_split_gap_is_change_score. Qed.
+
+Theorem C06_fixed_l2_cost_additive : forall (S1 S2 : nat -> R) (mu : R) (s k e : nat), (s <= k)%nat -> (k <= e)%nat -> l2_cost_fixed_R S1 S2 mu s e = (l2_cost_fixed_R S1 S2 mu s k + l2_cost_fixed_R S1 S2 mu k e)%R.
+Proof. exact @l2_fixed_additive. Qed.
+
+Theorem C06_fixed_gaussian_cost_additive : forall (S1 S2 : nat -> R) (mu v : R) (s k e : nat), (s <= k)%nat -> (k <= e)%nat -> v <> 0%R -> gaussian_var_cost_fixed_R S1 S2 mu v s e = (gaussian_var_cost_fixed_R S1 S2 mu v s k + gaussian_var_cost_fixed_R S1 S2 mu v k e)%R.
+Proof. exact @gvar_fixed_additive. Qed.
+
+Theorem C06_cost_saving_subadditive_when_split_holds : forall (Cf Co : nat -> nat -> R) (s k e : nat), Cf s e = (Cf s k + Cf k e)%R -> (Co s k + Co k e <= Co s e)%R -> (saving Cf Co s e <= saving Cf Co s k + saving Cf Co k e)%R.
+Proof. exact @saving_subadditive_of_parts. Qed.
+
+Theorem C06_l2_cost_saving_subadditive : forall (S1 S2 : nat -> R) (mu : R) (s k e : nat), (s < k)%nat -> (k < e)%nat -> (saving (l2_cost_fixed_R S1 S2 mu) (l2_cost_optim_R S1 S2) s e <= saving (l2_cost_fixed_R S1 S2 mu) (l2_cost_optim_R S1 S2) s k + saving (l2_cost_fixed_R S1 S2 mu) (l2_cost_optim_R S1 S2) k e)%R.
+Proof. exact @l2_cost_saving_subadditive. Qed.
+
+Theorem C06_gaussian_cost_saving_subadditive_above_floor : forall (S1 S2 : nat -> R) (mu v : R) (s k e : nat), (s < k)%nat -> (k < e)%nat -> v <> 0%R -> (floor_var <= V S1 S2 s k)%R -> (floor_var <= V S1 S2 k e)%R -> (floor_var <= V S1 S2 s e)%R -> (saving (gaussian_var_cost_fixed_R S1 S2 mu v) (gaussian_var_cost_optim_R S1 S2) s e <= saving (gaussian_var_cost_fixed_R S1 S2 mu v) (gaussian_var_cost_optim_R S1 S2) s k + saving (gaussian_var_cost_fixed_R S1 S2 mu v) (gaussian_var_cost_optim_R S1 S2) k e)%R.
+Proof. exact @gvar_cost_saving_subadditive. Qed.
+
+Theorem C06_gaussian_split_can_fail_at_the_floor : let W := fun n V : R => (n * ln (2 * PI * Rmax V floor_var) + n)%R in exists nb na Vb Va Vn : R, (0 < nb)%R /\ (0 < na)%R /\ (0 <= Vb)%R /\ (0 <= Va)%R /\ (nb * Vb + na * Va)%R = ((nb + na) * Vn)%R /\ (W (nb + na) Vn < W nb Vb + W na Va)%R.
+Proof. exact @gvar_split_can_fail_at_the_floor. Qed.
+
+Print Assumptions C06_l2_saving_subadditive.
+Print Assumptions C06_l2_saving_split_gap_is_l2_change_score.
+Print Assumptions C06_fixed_l2_cost_additive.
+Print Assumptions C06_fixed_gaussian_cost_additive.
+Print Assumptions C06_cost_saving_subadditive_when_split_holds.
+Print Assumptions C06_l2_cost_saving_subadditive.
+Print Assumptions C06_gaussian_cost_saving_subadditive_above_floor.
+Print Assumptions C06_gaussian_split_can_fail_at_the_floor.
